@@ -95,11 +95,14 @@ pub fn gen_dual2(r: &mut Rng) -> Dual2 {
     let names = gen_names(r, n);
     let g: Vec<f64> = (0..n).map(|_| hostile_f64(r)).collect();
     let mut d2 = vec![0.0; n * n];
+    // the constructor takes any n x n block: one in three is NOT symmetric (what arithmetic produces is, but
+    // symmetry is not an invariant of the type, and a stored object must come back as it was)
+    let symmetric = !r.chance(0.34);
     for i in 0..n {
         for j in i..n {
             let x = hostile_f64(r);
             d2[i * n + j] = x;
-            d2[j * n + i] = x;
+            d2[j * n + i] = if symmetric { x } else { hostile_f64(r) };
         }
     }
     Dual2::try_new(hostile_f64(r), names, g, d2).unwrap()
